@@ -17,8 +17,8 @@ TEXT = {
  'C19': "Seeded simulation of the three renderers under a simulated clock (they read datetime.now() per task) over WBSs scheduled by the real scheduler and decorated with adversarial names; output is parsed by the simulator. SECOND-WEAKEST FIT: the clock only influences done/active/progress; most of the property is a function of the WBS. Sampling by seed, not proof.",
 }
 NOTE = {
- 'graph': "Trusted: sim/*.py, CPython. Bounds: <=12 initial tasks (+ copies), <=3 WBS (+ copies), <=40 operations per run; custom attribute values immutable; no threads (no property mentions them). Known findings listed in known_findings.txt are reported as KNOWN-FINDING and their argument shapes are not generated in bulk.",
- 'sched': "Trusted: sim/*.py, CPython, the calendar classes (C17 is not applicable to this technique; capacity of a day is what the resource object answers). Bounds: <=10 tasks, depth <=3, <=3 supplied resources, <=5 calcs per scenario, dates 2014-2026. Clauses relating values from different clock reads are judged only when all reads fall on one day or none is later than the project start.",
+ 'graph': "Trusted: sim/*.py, CPython. Bounds: quick <=12 initial tasks (+ copies), <=3 WBS (+ copies), <=40 operations per run; thorough <=16 tasks, <=60 operations; custom attribute values immutable; no threads (no property mentions them). Known findings listed in known_findings.txt are reported as KNOWN-FINDING and their argument shapes are not generated in bulk.",
+ 'sched': "Trusted: sim/*.py, CPython, the calendar classes (C17 is not applicable to this technique; capacity of a day is what the resource object answers). Bounds: quick <=10 tasks, depth <=3 (thorough <=14 tasks, depth <=4), <=3 supplied resources, <=8 calc/edit steps per scenario, dates 2012-2026. Clauses relating values from different clock reads are judged only when all reads fall on one day or none is later than the project start.",
  'csv': "Trusted: sim/*.py, CPython io and csv modules. Bounds: <=10 tasks, <=3 custom columns. Torn files after a failed write are not judged (no durability claim exists).",
  'render': "Trusted: sim/*.py and its text-level parsers; no browser / Mermaid / DHTMLX runtime exists in the sandbox, so only the text structure is judged. Bounds: <=10 tasks.",
 }
